@@ -76,6 +76,7 @@ FIXED_SHAPES = {
     "yield from ()": "KIterEmpty",
     "for _ in (): /     yield": "KAiterEmpty",
     "return str(self)": "KStrOfSelf",
+    "return str(escape(str(self)))": "KEscStrOfSelf",
     ("if self._undefined_hint: /     message = f'undefined value printed: {self._undefined_hint}' / "
      "elif self._undefined_obj is missing: /     message = self._undefined_name / else: /     "
      "message = f'no such element: {object_type_repr(self._undefined_obj)}[{self._undefined_name!r}]' ;; "
@@ -235,6 +236,10 @@ def translate(src_dir):
             if len(lm) != 1 or _u(_body(lm[0])) != "logger.warning('Template variable warning: %s', undef._undefined_message)":
                 raise TranslateError("_log_message shape")
             logging_def = cds[0]
+    uses_escape = any(k == "KEscStrOfSelf" for tab in known.values() for k, _ in tab.values())
+    imports = [ast.unparse(n) for n in rt.body if isinstance(n, ast.ImportFrom) and any(a.name == "escape" for a in n.names)]
+    if uses_escape and not any(i.startswith("from markupsafe import") for i in imports):
+        raise TranslateError(f"`escape` is not markupsafe's: {imports}")
     if set(known) != set(BASES) or logging_def is None:
         raise TranslateError(f"classes found: {sorted(known)}")
     logging_tab = class_table(logging_def, known, in_logging=True)
@@ -287,7 +292,7 @@ def coq_text(tr, module_comment="regenerated from /repo"):
 
 KIND_CODE = {"KFail": "Fail", "KFailLogged": "FailLogged", "KGetattrFail": "GetattrFail", "KGetattrSelf": "GetattrSelf",
              "KRetSelf": "RetSelf", "KEqType": "EqType", "KNeNotEq": "NeNotEq", "KHashType": "HashType",
-             "KIterEmpty": "IterEmpty", "KDebugStr": "DebugStr", "KStrOfSelf": "StrOfSelf", "KHashNone": "HashNone",
+             "KIterEmpty": "IterEmpty", "KDebugStr": "DebugStr", "KStrOfSelf": "StrOfSelf", "KEscStrOfSelf": "EscStrOfSelf", "KHashNone": "HashNone",
              "KInit": "Init", "KMessage": "Message", "KAiterEmpty": "AiterEmpty", "KOther": "Other"}
 
 
